@@ -7,6 +7,7 @@ pub mod alloc_count;
 pub mod engine;
 pub mod exact;
 pub mod gen;
+pub mod items;
 pub mod props;
 pub mod targets;
 
